@@ -207,6 +207,8 @@ func checkC12(c *km.Ctx) {
 	}
 
 	checkPKCEVerifier(c, s, vf)
+	// codes and access tokens this server signs after unsealing must verify: the verifier list follows the keys
+	checkVerifierListFresh(c, s, "R-C12-1")
 
 	// ---- R-C12-4 provenance
 	prov := func(fn *ssa.Function, typ, field, req string, pred func(v ssa.Value) bool) {
